@@ -266,8 +266,36 @@ let cmd_flowobs () =
         Printf.sprintf "%s%d(%s)" (if isp then "q" else "t") (int_of_nat k) (String.concat "," (List.map show_term args)))
         (calls f sc)) in
       let bl = List.map (fun k -> "t" ^ string_of_int (int_of_nat k)) (blocked f sc) in
-      Printf.printf "ERR=%s ; RES=%s ; CALLS=%s ; BLOCKED=%s\n"
+      (* the operational model (generated jobs in the canonical order) must agree *)
+      let show_fid = function FT k -> "t" ^ string_of_int (int_of_nat k) | FP k -> "q" ^ string_of_int (int_of_nat k) in
+      let show_oterm = function Some t -> show_term t | None -> "<unset>" in
+      let sch = op_canonical f sc in
+      let e = op_run f sc sch in
+      let ofails = List.map show_ferr (op_fail e) in
+      let ocalls = List.sort compare (List.map (fun ((isp, k), args) ->
+        Printf.sprintf "%s%d(%s)" (if isp then "q" else "t") (int_of_nat k) (String.concat "," (List.map show_oterm args)))
+        (op_calls e)) in
+      let ores = match op_results f e with
+        | Some vs -> String.concat ";" (List.map show_oterm vs) | None -> "?" in
+      let subset a b = List.for_all (fun x -> List.mem x b) a in
+      let agree =
+        if not (op_valid f sc sch) then "DISAGREE:canonical-schedule-invalid"
+        else if fails = [] then
+          (if ofails <> [] then "DISAGREE:op-fails"
+           else if not (op_complete f e) then "DISAGREE:op-incomplete"
+           else if ores <> res then "DISAGREE:results " ^ ores
+           else if ocalls <> cs then "DISAGREE:calls " ^ String.concat ";" ocalls
+           else "agree")
+        else
+          (if ofails = [] then "DISAGREE:op-does-not-fail"
+           else if not (subset ofails fails) then "DISAGREE:op-failure " ^ String.concat "|" ofails
+           else if not (subset ocalls cs) then "DISAGREE:op-calls " ^ String.concat ";" ocalls
+           else "agree") in
+      let jobs = String.concat ";" (List.map (fun x ->
+        show_fid x ^ ":" ^ String.concat "," (List.sort compare (List.map show_fid (op_deps f x)))) (op_jobs f)) in
+      Printf.printf "ERR=%s ; RES=%s ; CALLS=%s ; BLOCKED=%s ; OP=%s ; UNIQ=%b ; JOBS=%s\n"
         (if fails = [] then "nil" else String.concat "|" fails) res (String.concat ";" cs) (String.concat "," bl)
+        agree (op_uniq f) jobs
     done
   with End_of_file -> ()
 
